@@ -8,12 +8,28 @@ shuffle, iteration).  Each fact schema is justified from the definitions by a le
 import z3
 from .values import *
 
-LS = list_sort('int')
 SET = z3.ArraySort(I, B)
-Elems = z3.Function('Elems', LS, SET)
-PElems = z3.Function('PElems', LS, I, SET)
-DupFree = z3.Function('DupFree', LS, B)
 EMPTY = z3.K(I, z3.BoolVal(False))
+KINDS = ('int', 'ref')
+_F = {}
+
+
+def fns(kind):
+    if kind not in _F:
+        LS = list_sort(kind)
+        _F[kind] = (z3.Function('Elems_' + kind, LS, SET), z3.Function('PElems_' + kind, LS, I, SET), z3.Function('DupFree_' + kind, LS, B))
+    return _F[kind]
+
+
+def _k(term):
+    for k in KINDS:
+        if term.sort() == list_sort(k): return k
+    raise ValueError('list kind')
+
+
+def Elems(t): return fns(_k(t))[0](t)
+def PElems(t, n): return fns(_k(t))[1](t, n)
+def DupFree(t): return fns(_k(t))[2](t)
 
 
 class VSet(V):
